@@ -20,7 +20,10 @@ shutil.copy(f"{src}/patch_{letter}.diff", f"{dst}/patch.diff")
 shutil.copy(f"{src}/demo_{letter}.py", f"{dst}/demo.py")
 agent_meta = {}
 try:
-    agent_meta = json.load(open(f"{src}/meta.json")).get(letter, {})
+    agent_meta = {}
+    for mf in ("meta.json", "meta2.json", "meta3.json"):
+        if os.path.exists(f"{src}/{mf}"):
+            agent_meta = json.load(open(f"{src}/{mf}")).get(letter, {}) or agent_meta
 except Exception as e:
     agent_meta = {"summary": f"(agent meta unreadable: {e})"}
 meta = {
